@@ -17,10 +17,11 @@ def strip (r : Rd) : Rd := { r with checkUTF8 := false, utf8on := false, utf8 :=
 
 /-! ### the validating loop, exactly -/
 
-theorem go_ok (u : Utf8Rd) (s : U8) (acc i : Nat) (p : Bytes) (hp : Bytes.WF p) (h : u8Run s p ≠ .rej) :
-    ∃ a, Utf8Rd.feed.go u (u8Enc s) acc i p = some (i + p.length, false, ⟨u8Enc (u8Run s p), a⟩) := by
+theorem go_ok (u : Utf8Rd) (s : U8) (acc i : Nat) (p : Bytes) (hp : Bytes.WF p) (h : u8Run s p ≠ .rej) (hacc : acc ≤ i) :
+    ∃ a, Utf8Rd.feed.go u (u8Enc s) acc i p = some (i + p.length, false, ⟨u8Enc (u8Run s p), a⟩)
+      ∧ a ≤ i + p.length ∧ (p ≠ [] → u8Run s p ≠ .acc → a < i + p.length) := by
   induction p generalizing s acc i with
-  | nil => exact ⟨acc, by simp [Utf8Rd.feed.go, u8Run]⟩
+  | nil => exact ⟨acc, by simp [Utf8Rd.feed.go, u8Run], by simpa using hacc, fun h => absurd rfl h⟩
   | cons b bs ih =>
     have hb0 : b < 256 := hp b (by simp)
     rw [u8Run_cons] at h
@@ -29,12 +30,25 @@ theorem go_ok (u : Utf8Rd) (s : U8) (acc i : Nat) (p : Bytes) (hp : Bytes.WF p) 
     have hr : ¬ u8Enc (u8Step s b) = utf8Reject := by
       intro hr; exact hne (u8Enc_inj (by simpa [u8Enc, utf8Reject] using hr))
     simp only [Utf8Rd.feed.go, utf8Step_ok s hb0, hr, if_false, u8Run_cons]
-    obtain ⟨a, ha⟩ := ih (u8Step s b) _ (i + 1) (fun x hx => hp x (by simp [hx])) h
-    exact ⟨a, by rw [ha]; simp; omega⟩
+    have hacc' : (if u8Enc (u8Step s b) = utf8Accept then i + 1 else acc) ≤ i + 1 := by split <;> omega
+    obtain ⟨a, ha, hle, hlt⟩ := ih (u8Step s b) _ (i + 1) (fun x hx => hp x (by simp [hx])) h hacc'
+    refine ⟨a, by rw [ha]; simp; omega, by simp at hle ⊢; omega, fun _ hna => ?_⟩
+    by_cases hbs : bs = []
+    · subst hbs
+      simp only [Utf8Rd.feed.go, Option.some.injEq, Prod.mk.injEq] at ha
+      have hstep : u8Step s b ≠ .acc := by simpa [u8Run] using hna
+      have hne2 : ¬ u8Enc (u8Step s b) = utf8Accept := by
+        intro hq; exact hstep (u8Enc_inj (by simpa [u8Enc, utf8Accept] using hq))
+      simp only [hne2, if_false] at ha
+      have : a = acc := by
+        have := ha.2.2; injection this with _ h2; exact h2.symm
+      simp; omega
+    · have := hlt hbs hna
+      simp at this ⊢; omega
 
 theorem go_bad (u : Utf8Rd) (s : U8) (acc i : Nat) (p : Bytes) (hp : Bytes.WF p) (hs : s ≠ .rej)
     (h : u8Run s p = .rej) (hacc : acc ≤ i) :
-    ∃ n u', Utf8Rd.feed.go u (u8Enc s) acc i p = some (n, true, u') ∧ n ≤ i + p.length := by
+    ∃ n u', Utf8Rd.feed.go u (u8Enc s) acc i p = some (n, true, u') ∧ n < i + p.length := by
   induction p generalizing s acc i with
   | nil => simp [u8Run] at h; exact absurd h hs
   | cons b bs ih =>
@@ -352,7 +366,7 @@ def SimOut (σ : U8) (real : Option (Bytes × Nat × Option RErr × Rd × Src ×
   ((u8Run σ bytes ≠ .rej ∧ (e = some .eof → u8Run σ bytes = .acc)
       ∧ ∃ r', real = some (bytes, n, e, r', s', cx') ∧ strip r' = q ∧ (e = none → TM (u8Run σ bytes) r'))
    ∨ ((u8Run σ bytes = .rej ∨ (e ≠ none ∧ u8Run σ bytes ≠ .acc))
-      ∧ ∃ m r', real = some (bytes, m, some .utf8, r', s', cx')))
+      ∧ ∃ m r', real = some (bytes, m, some .utf8, r', s', cx') ∧ m ≤ bytes.length ∧ (bytes ≠ [] → m < bytes.length)))
 
 theorem frameRead_strip_fix (r : Rd) (s : Src) (k : Nat) (p : Bytes) (n : Nat) (e : Option RErr) (q : Rd) (s' : Src)
     (h : (strip r).frameRead s k = some (p, n, e, q, s')) :
@@ -384,16 +398,17 @@ theorem u8Enc_acc (x : U8) : (u8Enc x == utf8Accept) = true ↔ x = .acc := by
   · rintro rfl; rfl
 
 theorem feed_ok (u : Utf8Rd) (σ : U8) (hs : u.state = u8Enc σ) (p : Bytes) (hp : Bytes.WF p) (h : u8Run σ p ≠ .rej) :
-    ∃ a, u.feed p = some (p.length, false, ⟨u8Enc (u8Run σ p), a⟩) := by
+    ∃ a, u.feed p = some (p.length, false, ⟨u8Enc (u8Run σ p), a⟩)
+      ∧ a ≤ p.length ∧ (p ≠ [] → u8Run σ p ≠ .acc → a < p.length) := by
   unfold Utf8Rd.feed; rw [hs]
-  obtain ⟨a, ha⟩ := go_ok u σ 0 0 p hp h
-  exact ⟨a, by rw [ha]; simp⟩
+  obtain ⟨a, ha, hle, hlt⟩ := go_ok u σ 0 0 p hp h (Nat.le_refl _)
+  exact ⟨a, by rw [ha]; simp, by simpa using hle, fun h1 h2 => by simpa using hlt h1 h2⟩
 
 theorem feed_bad (u : Utf8Rd) (σ : U8) (hs : u.state = u8Enc σ) (p : Bytes) (hp : Bytes.WF p) (h0 : σ ≠ .rej)
-    (h : u8Run σ p = .rej) : ∃ n u', u.feed p = some (n, true, u') := by
+    (h : u8Run σ p = .rej) : ∃ n u', u.feed p = some (n, true, u') ∧ n < p.length := by
   unfold Utf8Rd.feed; rw [hs]
-  obtain ⟨n, u', h1, _⟩ := go_bad u σ 0 0 p hp h0 h (Nat.le_refl _)
-  exact ⟨n, u', h1⟩
+  obtain ⟨n, u', h1, h2⟩ := go_bad u σ 0 0 p hp h0 h (Nat.le_refl _)
+  exact ⟨n, u', h1, by simpa using h2⟩
 
 /-- the second half of Read, checking reader against non-checking reader -/
 theorem tail_sim (σ : U8) (r : Rd) (s : Src) (cx : Ctx) (k : Nat) (htm : TM σ r) (hhas : r.hasFrame = true)
@@ -424,13 +439,13 @@ theorem tail_sim (σ : U8) (r : Rd) (s : Src) (cx : Ctx) (k : Nat) (htm : TM σ 
   refine ⟨rfl, ?_⟩
   by_cases hrej : u8Run σ bytes = .rej
   · -- the text leaves Table 3-7 inside this Read
-    obtain ⟨m, u', hf⟩ := feed_bad r.utf8 σ htm.st bytes hwf htm.ok hrej
+    obtain ⟨m, u', hf, hmlt⟩ := feed_bad r.utf8 σ htm.st bytes hwf htm.ok hrej
     have hreal : r.frameRead s k = some (bytes, m, some .utf8, { restore r q2 with utf8 := u' }, s') := by
       rw [frameRead_eq, hfr]; simp only [hon, if_true, hf]
     right
-    refine ⟨Or.inl hrej, m, { restore r q2 with utf8 := u' }, ?_⟩
+    refine ⟨Or.inl hrej, m, { restore r q2 with utf8 := u' }, ?_, Nat.le_of_lt hmlt, fun _ => hmlt⟩
     unfold tail; rw [hreal]; simp
-  · obtain ⟨a, hf⟩ := feed_ok r.utf8 σ htm.st bytes hwf hrej
+  · obtain ⟨a, hf, hale, halt⟩ := feed_ok r.utf8 σ htm.st bytes hwf hrej
     obtain ⟨R, hR⟩ : ∃ R : Rd, R = { restore r q2 with utf8 := ⟨u8Enc (u8Run σ bytes), a⟩ } := ⟨_, rfl⟩
     have hreal : r.frameRead s k = some (bytes, bytes.length, e0, R, s') := by
       rw [frameRead_eq, hfr, hR]; simp only [hon, if_true, hf, Bool.false_eq_true, if_false]
@@ -447,6 +462,7 @@ theorem tail_sim (σ : U8) (r : Rd) (s : Src) (cx : Ctx) (k : Nat) (htm : TM σ 
           · rfl
           · exact absurd ((u8Enc_acc _).mp hb) hacc
         rw [this]; simp [hacc]
+    have hRacc : R.utf8.accepted = a := by rw [hR]
     have hRtm : TM (u8Run σ bytes) R := by
       refine ⟨hRchk, by rw [hR], hrej, fun _ => by rw [hR]; exact hon, fun hfr2 => ?_,
         Or.inl (by rw [hR]; exact hhf2.trans hhas)⟩
@@ -479,7 +495,8 @@ theorem tail_sim (σ : U8) (r : Rd) (s : Src) (cx : Ctx) (k : Nat) (htm : TM σ 
               else if (R.rawN != 0) = true then some (bytes, bytes.length, some .ueof, R, s', cx')
               else if R.fragmented = true then some (bytes, bytes.length, none, R.resetFragment, s', cx')
               else if (R.checkUTF8 && !R.utf8.valid) = true then some (bytes, R.utf8.accepted, some .utf8, R, s', cx')
-              else some (bytes, bytes.length, some .eof, R.reset, s', cx')) = some (bytes, m, some .utf8, r', s', cx')) := by
+              else some (bytes, bytes.length, some .eof, R.reset, s', cx')) = some (bytes, m, some .utf8, r', s', cx')
+              ∧ m ≤ bytes.length ∧ (bytes ≠ [] → m < bytes.length)) := by
       intro isn hh
       rw [hRraw, hRfr, hRchk, hRval]
       by_cases c1 : (isn && q2.rawN != 0) = true
@@ -508,7 +525,7 @@ theorem tail_sim (σ : U8) (r : Rd) (s : Src) (cx : Ctx) (k : Nat) (htm : TM σ 
               exact Or.inl ⟨hrej, (fun _ => hacc), R.reset, rfl, hRre, (fun hh => by cases hh)⟩
             · have hc : (true && !decide (u8Run σ bytes = U8.acc)) = true := by simp [hacc]
               rw [if_pos hc]
-              exact Or.inr ⟨Or.inr ⟨by simp, hacc⟩, _, R, rfl⟩
+              exact Or.inr ⟨Or.inr ⟨by simp, hacc⟩, _, R, rfl, by rw [hRacc]; exact hale, fun hne => by rw [hRacc]; exact halt hne hacc⟩
     -- any other error of the frame stack (the transport's failure, …): handed on, unless it came with
     -- the last bytes of a message that ends inside a character
     have oth : ∀ x : RErr, x ≠ .eof →
@@ -520,7 +537,8 @@ theorem tail_sim (σ : U8) (r : Rd) (s : Src) (cx : Ctx) (k : Nat) (htm : TM σ 
         ∨ ((u8Run σ bytes = .rej ∨ (some x ≠ none ∧ u8Run σ bytes ≠ .acc))
           ∧ ∃ m r', (if (x != RErr.utf8 && R.rawN == 0 && !R.fragmented && R.checkUTF8 && !R.utf8.valid) = true then
                 some (bytes, R.utf8.accepted, some RErr.utf8, R, s', cx')
-              else some (bytes, bytes.length, some x, R, s', cx')) = some (bytes, m, some .utf8, r', s', cx')) := by
+              else some (bytes, bytes.length, some x, R, s', cx')) = some (bytes, m, some .utf8, r', s', cx')
+              ∧ m ≤ bytes.length ∧ (bytes ≠ [] → m < bytes.length)) := by
       intro x hx
       by_cases hcond : (x != RErr.utf8 && R.rawN == 0 && !R.fragmented && R.checkUTF8 && !R.utf8.valid) = true
       · rw [if_pos hcond]
@@ -530,7 +548,7 @@ theorem tail_sim (σ : U8) (r : Rd) (s : Src) (cx : Ctx) (k : Nat) (htm : TM σ 
           intro hacc
           rw [hRval, hacc] at hv
           simp at hv
-        exact Or.inr ⟨Or.inr ⟨by simp, hnacc⟩, _, R, rfl⟩
+        exact Or.inr ⟨Or.inr ⟨by simp, hnacc⟩, _, R, rfl, by rw [hRacc]; exact hale, fun hne => by rw [hRacc]; exact halt hne hnacc⟩
       · rw [if_neg hcond]
         exact Or.inl ⟨hrej, (fun hh => absurd (Option.some.inj hh) hx), R, rfl, hRs, (fun hh => by cases hh)⟩
     cases e0 with
@@ -738,7 +756,7 @@ theorem reads_sim (ks : List Nat) : ∀ (σ : U8) (r : Rd) (s : Src) (cx : Ctx),
       simp only [Option.some.injEq, Prod.mk.injEq] at h
       obtain ⟨rfl, rfl, rfl, rfl, rfl⟩ := h
       obtain ⟨_, hsim⟩ := read_sim σ r s cx k htm bytes bytes.length (some x) q1 s1 cx1 hrd hwf
-      rcases hsim with ⟨a1, a2, r', a3, a4, _⟩ | ⟨a1, m, r', a3⟩
+      rcases hsim with ⟨a1, a2, r', a3, a4, _⟩ | ⟨a1, m, r', a3, _, _⟩
       · left
         refine ⟨a1, a2, r', ?_, a4, (fun hh => by cases hh)⟩
         rw [a3]; simp
@@ -753,7 +771,7 @@ theorem reads_sim (ks : List Nat) : ∀ (σ : U8) (r : Rd) (s : Src) (cx : Ctx),
       simp only [Option.some.injEq, Prod.mk.injEq] at h
       obtain ⟨rfl, rfl, rfl, rfl, rfl⟩ := h
       obtain ⟨_, hsim⟩ := read_sim σ r s cx k htm bytes bytes.length none q1 s1 cx1 hrd (wf_left hwf)
-      rcases hsim with ⟨a1, _, r', a3, a4, a5⟩ | ⟨a1, m, r', a3⟩
+      rcases hsim with ⟨a1, _, r', a3, a4, a5⟩ | ⟨a1, m, r', a3, _, _⟩
       · -- this Read went the same way; continue from the new state
         have htm' := a5 rfl
         rw [← a4] at hrs
